@@ -238,7 +238,7 @@ let run clause_prefix path =
           | None -> go x' rest) in
      go { TraceScan.hs_tab = []; hs_cur = None } evs);
     (let name_of = function
-       | TraceScan.YNone -> ("qos01", "none")
+       | TraceScan.YNone | TraceScan.YInit -> ("qos01", "none")
        | TraceScan.YPub (Packet.Publish (_, m, id)) ->
          if int_of_n m.Packet.m_qos = 2 then ("pubrec_always", "publish_qos2_unanswered id=" ^ string_of_n id)
          else ("qos01", "publish_qos1_unanswered id=" ^ string_of_n id)
@@ -257,7 +257,7 @@ let run clause_prefix path =
           | Some y' -> go y' rest
           | None -> let (clause, what) = name_of y in
             report clause q (what ^ " next_processor_event=" ^ event_kind e ^ " (trace scan)")) in
-     go TraceScan.YNone evs);
+     go TraceScan.YInit evs);
     if not (TraceScan.scan_noack false all_events) then begin
       let rec first acc = function
         | [] -> "?"
